@@ -238,6 +238,7 @@ func runC16(t *testing.T, c explore.Case) (res explore.Result, enabled []string)
 					ann.StopTraversing()
 				}
 				synctest.Wait()
+				net.collect()
 				// cancelled get_peers queries are gone
 				for _, q := range net.open() {
 					if q.Q == "get_peers" {
@@ -259,6 +260,17 @@ func runC16(t *testing.T, c explore.Case) (res explore.Result, enabled []string)
 			}
 			synctest.Wait()
 			net.collect()
+		}
+		// After Close the announce goroutine may still start announce_peer queries that its own
+		// cancellation watcher kills at once; whether their first datagram reaches the socket is a
+		// race inside the implementation that the runtime decides. They are not answerable events.
+		if closedAnn {
+			for _, q := range net.open() {
+				if q.Q == "announce_peer" {
+					q.Done = true
+					answered[q] = "cancelled"
+				}
+			}
 		}
 		// enabled letters in the state reached
 		open := net.open()
@@ -286,6 +298,9 @@ func runC16(t *testing.T, c explore.Case) (res explore.Result, enabled []string)
 			st := answered[q]
 			if st == "" {
 				st = "open"
+			}
+			if closedAnn && q.Q == "announce_peer" && st == "cancelled" {
+				continue // see above: presence is decided by the runtime
 			}
 			ks = append(ks, q.To.String()+"/"+q.Q+"/"+st)
 		}
@@ -453,6 +468,28 @@ func c16Scenarios(thorough bool) (out []c16Scn) {
 			}
 		}
 	}
+	if thorough {
+		// all assignments for 4 peers (7^4), two starting nodes, implied port
+		for _, a := range behs {
+			for _, b := range behs {
+				for _, c := range behs {
+					for _, d := range behs {
+						out = append(out, c16Scn{Beh: string([]rune{a, b, c, d}), Opt: "implied", Consumer: "all", Starts: 2})
+					}
+				}
+			}
+		}
+		// all assignments for 3 peers with Close / StopTraversing at every position
+		for _, a := range behs {
+			for _, b := range behs {
+				for _, c := range behs {
+					for _, stop := range []string{"close", "stoptrav"} {
+						out = append(out, c16Scn{Beh: string([]rune{a, b, c}), Opt: "port", Consumer: "all", Stop: stop, Starts: 1})
+					}
+				}
+			}
+		}
+	}
 	// options x stop actions x consumers on designed networks
 	designed := []string{"nnn", "nvx", "vne", "nsn", "onr", "nnnn", "vxse", "nnsn"}
 	if thorough {
@@ -503,7 +540,7 @@ func c16Scenarios(thorough bool) (out []c16Scn) {
 func TestC16(t *testing.T) {
 	w := explore.NewWorker("C16")
 	defer w.Finish()
-	w.SetRule("real Server.AnnounceTraversal over simulated networks of 3-4 peers (peer i lists the later peers; behaviours per peer: token+nodes, token+values, no token, empty token, error reply, silent, answers under another ID; all 343 assignments for 3 peers plus designed 3- and 4-peer networks) x options {port, implied_port, scrape+port, no announce} x consumer {reads to the end, stops reading after 0/1 deliveries and closes} x {no stop, Close, StopTraversing inserted at every position} x 1-2 starting nodes; DFS over all orders of answering / timing out the pending get_peers and announce_peer queries with canonical-state dedup; oracles in every state and at every terminal state")
+	w.SetRule("real Server.AnnounceTraversal over simulated networks of 3-4 peers (peer i lists the later peers; behaviours per peer: token+nodes, token+values, no token, empty token, error reply, silent, answers under another ID; all 343 assignments for 3 peers plus designed 3- and 4-peer networks; thorough: all 2401 assignments for 4 peers and all 3-peer assignments with Close / StopTraversing at every position) x options {port, implied_port, scrape+port, no announce} x consumer {reads to the end, stops reading after 0/1 deliveries and closes} x {no stop, Close, StopTraversing inserted at every position} x 1-2 starting nodes; DFS over all orders of answering / timing out the pending get_peers and announce_peer queries with canonical-state dedup; oracles in every state and at every terminal state")
 	scns := c16Scenarios(w.Thorough())
 	w.Bound("scenarios", len(scns))
 	states := 0
